@@ -570,8 +570,8 @@ class NR1dNsMinimizerImpl(
     ):
         """Minimizes the given function ``func`` with the given initial function
         argument values ``initials``. This minimizer implementation will only
-        vary the first parameter. All other parameters will be set to their
-        initial value.
+        vary the ns parameter, which is by default the first parameter. All
+        other parameters will be set to their initial value.
 
         Parameters
         ----------
@@ -595,8 +595,11 @@ class NR1dNsMinimizerImpl(
 
         Additional Keyword Arguments
         ----------------------------
-        There are no additional options defined for this minimization
-        implementation.
+        Possible options are:
+
+            ns_pidx : int
+                The index of the ns parameter within ``initials`` and
+                ``bounds``. Default is ``0``.
 
         Returns
         -------
@@ -633,17 +636,19 @@ class NR1dNsMinimizerImpl(
         if func_args is None:
             func_args = tuple()
 
-        (ns_min, ns_max) = bounds[0]
-        if ns_min > initials[0]:
+        ns_pidx = kwargs.get('ns_pidx', 0)
+
+        (ns_min, ns_max) = bounds[ns_pidx]
+        if ns_min > initials[ns_pidx]:
             raise ValueError(
-                f'The initial value for ns ({initials[0]:g}) must be equal or '
-                f'greater than the minimum bound value for ns ({ns_min:g})')
+                f'The initial value for ns ({initials[ns_pidx]:g}) must be equal '
+                f'or greater than the minimum bound value for ns ({ns_min:g})')
 
         ns_tol = self.ns_tol
 
         niter = 0
         x = np.copy(initials).astype(np.float64)
-        ns = x[0]
+        ns = x[ns_pidx]
 
         # Initialize stepsize to be larger than ns tolerance.
         # Also initialize first derivative to large value.
@@ -667,7 +672,7 @@ class NR1dNsMinimizerImpl(
         while ((ns_tol < np.fabs(step)) or (np.fabs(fprime) > 1.e-1)) and\
               (niter < max_steps):
 
-            x[0] = ns
+            x[ns_pidx] = ns
             (f, fprime, fprimeprime) = func(x, *func_args)
             if fprime == 0 and fprimeprime == 0:
                 # The function is flat at ns, i.e. ns is a stationary point.
@@ -704,7 +709,7 @@ class NR1dNsMinimizerImpl(
             # Increase counter since a step was taken.
             niter += 1
 
-        x[0] = ns
+        x[ns_pidx] = ns
         # Once converged evaluate function at minimum value unless
         # Convergence was forced at boundary
         # in which case function value is already known.
@@ -873,8 +878,12 @@ class NRNsScan2dMinimizerImpl(
             warnreason: str
                 The description for the set warn flag.
         """
-        p2_low = bounds[1][0]
-        p2_high = bounds[1][1]
+        # The second parameter is the one of the first two parameters, which is
+        # not the ns parameter.
+        p2_pidx = 1 if kwargs.get('ns_pidx', 0) == 0 else 0
+
+        p2_low = bounds[p2_pidx][0]
+        p2_high = bounds[p2_pidx][1]
         p2_scan_values = np.linspace(
             p2_low, p2_high, int((p2_high-p2_low)/self.p2_scan_step)+1)
 
@@ -888,7 +897,7 @@ class NRNsScan2dMinimizerImpl(
         best_fmin = None
         best_status = None
         for p2_value in p2_scan_values:
-            initials[1] = p2_value
+            initials[p2_pidx] = p2_value
             (xmin, fmin, status) = super().minimize(
                 initials, bounds, func, func_args, **kwargs)
             niter_total += status['niter']
